@@ -331,13 +331,16 @@ var preambles = [][]string{
 	{"", "#include <a.h>"},
 	{"#include <a.h>", "", "#include <b.h>"},
 	{"#include <a.h>   \nint x;\t \n#define Y 1  "},
+	// (the text of a raw string literal that starts on the line after the back quote)
+	{"\n#include <lead.h>\n"},
+	{"#include <a.h>", "\nstatic int lead(void) { return 1; }", "\n"},
 	{"#include <a.h>\nstatic const char table[] = \"" + strings.Repeat("0123456789abcdef", 4400) + "\";\nstatic int answer(void) { return 42; }"},
 }
 
 func TestC19(t *testing.T) {
 	r := hx.Start(t, "C19")
 	defer r.Finish(t)
-	r.Rule("enumerated cross product {C introduced by Qual, Anon, both, preamble only} x 19 preamble lists (incl. empty blocks, trailing blanks, a 70 KB line) (one-line, multi-line with/without trailing newline, raw // lines, raw /* */, mixtures, repeated blocks; one case in three also with the preamble supplied after a first render, one in four with a detached C snippet rendered as a fragment against the File first) x other imports {none, one, many, aliased, anonymous, dot, a path whose guess is c} x PackagePrefix on/off x hints {none, ImportName(C), ImportAlias(C), ImportAlias(C, .), ImportAlias(C, _), another path named C} x C referenced first/last; thorough adds rapid-generated preamble texts; non-trivial = a preamble together with >= 1 other import, or a prefix or a hint naming C; distinct by the case")
+	r.Rule("enumerated cross product {C introduced by Qual, Anon, both, preamble only} x 21 preamble lists (incl. empty blocks, trailing blanks, texts that start with a line break, a 70 KB line) (one-line, multi-line with/without trailing newline, raw // lines, raw /* */, mixtures, repeated blocks; one case in three also with the preamble supplied after a first render, one in four with a detached C snippet rendered as a fragment against the File first) x other imports {none, one, many, aliased, anonymous, dot, a path whose guess is c} x PackagePrefix on/off x hints {none, ImportName(C), ImportAlias(C), ImportAlias(C, .), ImportAlias(C, _), another path named C} x C referenced first/last; thorough adds rapid-generated preamble texts; non-trivial = a preamble together with >= 1 other import, or a prefix or a hint naming C; distinct by the case")
 	r.Assume("raw-form preamble texts are well-formed comments (one /*...*/, or // lines joined by single newlines, no trailing newline); preamble text is compared on the NoFormat twin, structure on the formatted output")
 	ck := hx.Check[Case]{Name: "cgo", Fn: check}
 	if !hx.Replay(r, ck) {
@@ -438,7 +441,9 @@ func genBlock(t *rapid.T) string {
 		}
 		return s
 	}
-	switch rapid.IntRange(0, 4).Draw(t, "style") {
+	switch rapid.IntRange(0, 5).Draw(t, "style") {
+	case 5:
+		return "\n" + line() + "\n"
 	case 0:
 		return line()
 	case 1:
